@@ -887,6 +887,7 @@ func (E *Engine) callMods(c *ssa.CallCommon) *ModSet {
 		return m
 	}
 	targets, ext, dyn := E.callTargets(c)
+	m.add(E.ghostKeysOfCall(c)...)
 	if ext != nil {
 		m.union(E.externalModset(ext, c.Args))
 	}
@@ -1044,4 +1045,22 @@ func (fr *frame) nestedVariant(L, inner *loop, st *State, mode string) {
 			}
 		}
 	}
+}
+
+// ghostKeysOfCall: the ghost-state arrays (G.*) an interface method call changes according to its contract.
+func (E *Engine) ghostKeysOfCall(c *ssa.CallCommon) []string {
+	if !c.IsInvoke() {
+		return nil
+	}
+	ict := E.S.Contracts[ifaceKey(c.Value.Type(), c.Method.Name())]
+	if ict == nil {
+		return nil
+	}
+	var out []string
+	for _, k := range ict.Modifies {
+		if strings.HasPrefix(k, "G.") {
+			out = append(out, k)
+		}
+	}
+	return out
 }
